@@ -44,6 +44,8 @@ class Gen:
         self.obj_refs = obj_refs
         self.allow_catch = allow_catch
         self.hot = []        # cells whose formulas ran in the most recent call (locality bias)
+        self.queue = []      # operations scheduled by scenarios
+        self.last_call = None
         self.nf = 0
         self.flib = {}
         self.sigs = {}
@@ -245,9 +247,29 @@ class Gen:
         return [self.rng.choice(KEYS) for _ in range(n)]
 
     def next_op(self):
+        op = self._next_op()
+        if op["op"] == "call":
+            self.last_call = dict(op)
+        elif getattr(self, "last_call", None) and self.rng.random() < 0.45:
+            # ask again what was asked before the edit: staleness shows at once
+            self.queue.append(dict(self.last_call))
+        return op
+
+    def _next_op(self):
         rng = self.rng
+        if self.queue:
+            return self.queue.pop(0)
         w = PROFILES[self.profile]
         kinds = list(w)
+        if self.profile == "flags" and self.hot and rng.random() < 0.12:
+            # scenario: flip the flag of a cells that just ran, edit a reference near it
+            try:
+                a, b = self.mk_set_cached(), self.mk_set_ref()
+                if a and b:
+                    self.queue.append(b)
+                    return a
+            except (IndexError, KeyError, ValueError):
+                pass
         for _ in range(50):
             kind = rng.choices(kinds, [w[k] for k in kinds])[0]
             try:
